@@ -156,6 +156,19 @@ CHECKS = {
              "shapes (bounded).",
         technique="contract-based deductive verification: atom-linearity of symbolic templates, symbolic read counters (z3 LIA), fold "
                   "invariants over abstract holder tables, structural postconditions of callbacks"),
+    "C15": dict(
+        category="proof",
+        text="Drop-freedom by production coverage: the grammar is loaded with lark on every run and every rule is classified "
+             "(callback / transparent / Tree-producing; unknown rule -> undecided); rejecting contracts for goto/continue/break/"
+             "return;, while/do/switch, unknown functions, array/member/pointer access, * and &; statement-list consumers "
+             "(Sequence.__init__ for lists of ANY length by fold invariant, final instruction sequence) raise on the value of a "
+             "rule without handler (labels, comma expressions); Tree-injection: each of 29 callbacks, given an unhandled value in "
+             "any child position, raises or keeps it reachable in its result so that a later consumer/emission rejects it.",
+        design_ref="DESIGN.md section 3, C15",
+        note=TRUST + "lark Transformer dispatch (T-LARK); a Tree still contained in a result is rejected by emission (T-IND); value "
+             "placeholders with pending side effects are C06's.",
+        technique="contract-based deductive verification: mechanical production inventory + rejecting (raises) contracts + fold "
+                  "invariant on the item consumers + per-callback injection obligations, native source-level replay"),
 }
 
 NOT_APPLICABLE = {
